@@ -160,7 +160,7 @@ PROPS["C20"] = dict(
     assumptions=COMMON_ASSUME,
     technique="bounded-exhaustive cross product of entry points x degenerate shapes + property-based testing (rapid); oracle = no panic, zero counts, whole-state snapshots",
     level_text=("Exhaustive cross product of every exported entry point x every degenerate allocator on a small grid x all types/pairs/instantiations; "
-                "larger degenerate shapes and partner sizes sampled by rapid. Pooled zero-length buffers are used (AppendSample) before they go back."),
+                "larger degenerate shapes and partner sizes sampled by rapid. Pooled zero-length buffers are used (AppendSample) before they go back. Three named element types and nine named/underlying Read/Write pairs."),
     level_note="For ChannelLength(n>0, 0), a combination no buffer can produce, only 'no panic and a result in [0,n]' is demanded.",
 )
 NUM_ASSUME = COMMON_ASSUME + [
@@ -182,7 +182,7 @@ PROPS["C06"] = dict(
     assumptions=NUM_ASSUME,
     technique="exhaustive enumeration of all 8/16/32-bit source codes in amplitude order + property-based testing (rapid) on 64-bit sources; order and reference-level oracle in exact integer arithmetic",
     level_text=("Complete enumeration of every 8- and 16-bit source code (quick) and every 32-bit source code (thorough) for all destinations decides order "
-                "preservation exactly on those sub-domains; 64-bit sources are sampled densely at boundaries and at random (order is checked on sorted samples). Long and wide at once: 12 channels x 40000 and 64 channels x 70001 samples per pair in the sweep; rapid couples very long buffers with 1..64 channels. Operands may also have grown out of an empty window (Slice(fr,fr) then Append). Named element types (34 further instantiations); a source that was the output of a conversion and is converted through a window cut then (fix 5)."),
+                "preservation exactly on those sub-domains; 64-bit sources are sampled densely at boundaries and at random (order is checked on sorted samples). Long and wide at once: 12 channels x 40000 and 64 channels x 70001 samples per pair in the sweep; rapid couples very long buffers with 1..64 channels. Operands may also have grown out of an empty window (Slice(fr,fr) then Append). Named element types (34 further instantiations); a source that was the output of a conversion and is converted through a window cut then (fix 5). Operands of unequal length (source or destination two frames longer)."),
     level_note="Order preservation between two arbitrary 64-bit inputs is only sampled; adjacent-code monotonicity on the swept domains implies it there.",
 )
 
@@ -197,7 +197,7 @@ PROPS["C07"] = dict(
     assumptions=NUM_ASSUME,
     technique="exhaustive enumeration of all 8/16/32-bit source codes + property-based testing (rapid) on 64-bit sources; floor/ceil accuracy oracle and widen-then-narrow round trip in exact integer arithmetic",
     level_text=("Complete enumeration of every 8/16-bit (quick) and 32-bit (thorough) source code for all 11 destinations, including every widen-and-back "
-                "composition; 64-bit sources sampled at boundaries and at random. Long and wide at once: 12 channels x 40000 and 64 channels x 70001 samples per pair in the sweep; rapid couples very long buffers with 1..64 channels. Operands may also have grown out of an empty window (Slice(fr,fr) then Append). Named element types (34 further instantiations); a source that was the output of a conversion and is converted through a window cut then (fix 5)."),
+                "composition; 64-bit sources sampled at boundaries and at random. Long and wide at once: 12 channels x 40000 and 64 channels x 70001 samples per pair in the sweep; rapid couples very long buffers with 1..64 channels. Operands may also have grown out of an empty window (Slice(fr,fr) then Append). Named element types (34 further instantiations); a source that was the output of a conversion and is converted through a window cut then (fix 5). Operands of unequal length (source or destination two frames longer)."),
     level_note="Round trips return to every element type with the source's signedness and depth (int/int64, uint/uint64/uintptr).",
 )
 
@@ -216,7 +216,7 @@ PROPS["C08"] = dict(
     assumptions=NUM_ASSUME + ["NaN inputs are excluded (result unspecified by the property)", "the verdict is for linux/amd64, where the library relies on the platform's float-to-integer conversion for in-range negative inputs to unsigned types"],
     technique="exhaustive enumeration of all float32 bit patterns (thorough) + boundary-dense sweep + property-based testing (rapid) and native fuzzing; clip/linearity/monotonicity oracle decided with exact 128-bit arithmetic",
     level_text=("Every non-NaN float32 input for all 11 float32-source instantiations is enumerated in numeric order (thorough), which decides clipping, accuracy and "
-                "monotonicity exactly there; float64 inputs are sampled densely at the boundaries the property names and at random. Long and wide at once: 12 channels x 40000 and 64 channels x 70001 samples per instantiation in the sweep; rapid couples very long buffers with 1..64 channels. Operands may also have grown out of an empty window (Slice(fr,fr) then Append). Named element types (34 further instantiations); a source that was the output of a conversion and is converted through a window cut then (fix 5)."),
+                "monotonicity exactly there; float64 inputs are sampled densely at the boundaries the property names and at random. Long and wide at once: 12 channels x 40000 and 64 channels x 70001 samples per instantiation in the sweep; rapid couples very long buffers with 1..64 channels. Operands may also have grown out of an empty window (Slice(fr,fr) then Append). Named element types (34 further instantiations); a source that was the output of a conversion and is converted through a window cut then (fix 5). Operands of unequal length (source or destination two frames longer)."),
     level_note="The one-step tolerance is the property's own; the oracle has no floating tolerance of its own (exact integer comparison).",
 )
 
@@ -234,7 +234,7 @@ PROPS["C09"] = dict(
     assumptions=NUM_ASSUME,
     technique="exhaustive enumeration of all 8/16/32-bit source codes + property-based testing (rapid) on 64-bit sources; range/level/order/accuracy oracle and round trip through the inverse conversion",
     level_text=("Complete enumeration of every 8/16-bit (quick) and 32-bit (thorough) code into both float types, with injectivity and round trips; 64-bit sources "
-                "sampled. One known finding (F9, UnsignedAsFloat) is reported as KNOWN-FINDING and excluded by a structural predicate. Long and wide at once: 12 channels x 40000 and 64 channels x 70001 samples per pair in the sweep; rapid couples very long buffers with 1..64 channels. Operands may also have grown out of an empty window (Slice(fr,fr) then Append). Named element types (34 further instantiations); a source that was the output of a conversion and is converted through a window cut then (fix 5)."),
+                "sampled. One known finding (F9, UnsignedAsFloat) is reported as KNOWN-FINDING and excluded by a structural predicate. Long and wide at once: 12 channels x 40000 and 64 channels x 70001 samples per pair in the sweep; rapid couples very long buffers with 1..64 channels. Operands may also have grown out of an empty window (Slice(fr,fr) then Append). Named element types (34 further instantiations); a source that was the output of a conversion and is converted through a window cut then (fix 5). Operands of unequal length (source or destination two frames longer)."),
     level_note="'plus float rounding' is taken as 4 ulp of 1 in the destination float type.",
 )
 PROPS["C16"] = dict(
@@ -264,7 +264,7 @@ PROPS["C17"] = dict(
     thorough=dict(rapid=dict(checks=300000, shards=16), fuzz=dict(targets=["FuzzC17"], seconds=20)),
     assumptions=COMMON_ASSUME + ["'plus float rounding' is taken as a relative 2^-50 of the exact value (two float64 roundings)"],
     technique="property-based testing (rapid) with tie-seeking generators + deterministic grid over standard rates, compared with exact rational arithmetic",
-    level_text=("Sampled exploration with an exact rational oracle; the standard rates are covered by a deterministic grid (first 300 counts, +-3 around every hour up to 24 h)."),
+    level_text=("Sampled exploration with an exact rational oracle; the standard rates are covered by a deterministic grid (first 300 counts, +-3 around every hour up to 24 h). Arguments whose product (rate x duration, count x 10^9) lies next to a multiple of 2^53, 2^63 or 2^64 are drawn and swept."),
     level_note="Domain limited to 0.01 Hz <= f <= 10 MHz, spans up to 24 h, as the property quantifies.",
 )
 PROPS["C10"] = dict(
@@ -275,7 +275,7 @@ PROPS["C10"] = dict(
           "Channels/Length/Capacity/Len/Cap/BitDepth equal a fresh Alloc's and every sample over Slice(0,K) is zero; after every step every outstanding buffer "
           "still reads its own ownership stamp plus its own writes over its whole capacity (no shared storage). Non-trivial: a get that returned a recycled "
           "object (pointer previously passed to Put); sub-classes recycled after dirty use, after reslice-to-shorter, with L>0, several outstanding."
-          " A checked-out buffer keeps all its headers (the original and every reslice from frame 0): operations and Put may go through any of them; a header that grows beyond the capacity leaves alone; 'quiet' checkouts are not stamped; floating types get -0.0 among the written values. Burst histories keep up to 40 buffers checked out at once and put them back oldest or newest first; a buffer object returned by Get while a checkout still holds it is a violation. Rare histories on pooled buffers of 65537..70001 samples; two named element types; the storage's own length and capacity (read by reflection) must agree with Len()/Cap()."),
+          " A checked-out buffer keeps all its headers (the original and every reslice from frame 0): operations and Put may go through any of them; a header that grows beyond the capacity leaves alone; 'quiet' checkouts are not stamped; floating types get -0.0 among the written values. Burst histories keep up to 40 buffers checked out at once and put them back oldest or newest first; a buffer object returned by Get while a checkout still holds it is a violation. Rare histories on pooled buffers of 65537..70001 samples; two named element types; the storage's own length and capacity (read by reflection) must agree with Len()/Cap(). Growing appends may end in partial frames; the grown header is offered to Put half of the time (refused or not, later buffers must have the pool's shape)."),
     quick=dict(rapid=dict(checks=20000, shards=8)),
     thorough=dict(rapid=dict(checks=50000, shards=16), fuzz=dict(targets=["FuzzC10"], seconds=30)),
     assumptions=COMMON_ASSUME + ["sync.Pool hands a just-put object back to the same goroutine almost always; the class histogram in the evidence shows how often a recycled buffer was observed"],
@@ -336,7 +336,7 @@ PROPS["C11"] = dict(
     technique="randomised concurrent stress under the Go race detector with rapid-generated configurations (goroutines, GOMAXPROCS, yield points, GC); freshness and ownership-stamp oracle",
     level_text=("Schedule sampling, not enumeration: rapid generates the concurrency configuration, the Go scheduler picks the interleaving. Decisive for the realistic defect classes "
                 "(unsynchronised shared state in the pool, shared buffers handed out twice) through the race detector and ownership stamps; a defect needing one specific "
-                "preemption point is out of reach (DESIGN.md section 6). Goroutines hold 1..4 buffers at the same time (released in get order or newest first); hammer cases run thousands of cycles on tiny buffers, a third of them with a shared ownership table; a third of the cases put back a Slice(0,k) view instead of the buffer; the bookkeeping keeps no pointer to a buffer that went back."),
+                "preemption point is out of reach (DESIGN.md section 6). Goroutines hold 1..4 buffers at the same time (released in get order or newest first); hammer cases run thousands of cycles on tiny buffers, a third of them with a shared ownership table; a third of the cases put back a Slice(0,k) view instead of the buffer; in half of the cases by-value goroutines copy the allocator while others already use it; the bookkeeping keeps no pointer to a buffer that went back."),
     level_note="Race reports are turned into violations with the process log as the replay artefact; so is an abort of the race build's pointer checker (checkptr) whose innermost non-runtime frame is in pipelined.dev/signal.",
 )
 FIRSTUSE = [dict(name="firstuse-" + t, run="TestFirstUse", env={"VERIF_FIRST_TYPE": t})
@@ -358,7 +358,7 @@ PROPS["C19"] = dict(
                                  "the race detector reports unordered conflicting accesses that actually executed"],
     technique="randomised concurrent stress under the Go race detector with rapid-generated reader/writer scripts; differential oracle against the sequential execution of the same scripts",
     level_text=("Schedule sampling, not enumeration. Hidden shared mutable state in a read path or a write outside a slice's window is an unordered conflicting access, which the race "
-                "detector reports whenever both accesses execute, whatever the interleaving; results are also compared with a sequential run. A fifth of the cases use 5..17 (rarely 60..70) channels; the sweep includes 9 and 16. Writer windows may reach into the spare capacity, with a boundary right behind a partial last frame; reader results are rendered without package fmt (its pooled printers would order the goroutines)."),
+                "detector reports whenever both accesses execute, whatever the interleaving; results are also compared with a sequential run. A fifth of the cases use 5..17 (rarely 60..70) channels; the sweep includes 9 and 16. Writer windows may reach into the spare capacity, with a boundary right behind a partial last frame; reader results are rendered without package fmt (its pooled printers would order the goroutines); writers offer inputs longer than their window, also to an empty window."),
     level_note="Race reports are turned into violations with the process log as the replay artefact; so is an abort of the race build's pointer checker (checkptr) whose innermost non-runtime frame is in pipelined.dev/signal.",
 )
 
